@@ -97,12 +97,28 @@ def run(args, seed, t_start):
         lemma_names[q] = doc
         by_name.setdefault(q, []).append(q)
         tasks.append((q, smt2, timeout_ms))
+    # vacuity covers: per function the entry cover (requires satisfiable) and up to three exit covers (some exit reachable)
     cover_tasks = []
+    per_fn = collections.OrderedDict()
     for i, (name, smt2) in enumerate(r.covers):
-        cover_tasks.append(('cover#%d#%s' % (i, name), smt2, 5000))
+        fn = name.split('/cover[')[0]
+        label = name.split('/cover[')[1][:-1]
+        per_fn.setdefault(fn, {'entry': None, 'exits': []})
+        if label == 'entry':
+            if per_fn[fn]['entry'] is None:
+                per_fn[fn]['entry'] = (i, name, smt2)
+        elif label == 'normal-exit' and len(per_fn[fn]['exits']) < 3:
+            per_fn[fn]['exits'].append((i, name, smt2))
+    for fn, d in per_fn.items():
+        if not d['exits']:
+            for i, (name, smt2) in enumerate(r.covers):
+                if name.startswith(fn + '/cover[raise') and len(d['exits']) < 2:
+                    d['exits'].append((i, name, smt2))
+        for (i, name, smt2) in ([d['entry']] if d['entry'] else []) + d['exits']:
+            cover_tasks.append(('cover#%d#%s' % (i, name), smt2, 4000))
     t_solve = time.time()
     res = solve.solve_all(tasks, jobs=args.jobs, both=(tier == 'thorough'))
-    cres = solve.solve_all(cover_tasks, jobs=args.jobs)
+    cres = solve.solve_all(cover_tasks, jobs=args.jobs, sat_first=True)
     solve_wall = time.time() - t_solve
 
     # ---- verdicts ---------------------------------------------------------------------------------
